@@ -175,7 +175,9 @@ class Recorder:
         await task
 
     def build_query(self, st: dict) -> bytes:
-        qs = [(t, wire.T_PTR, 1 | (0x8000 if st.get('qu') else 0)) for t in st['types']]
+        from props.respfam import recase
+        # (the question may spell the type in other letter case than this host does: it is the same question)
+        qs = [(recase(t, st.get('qsp', 0)), wire.T_PTR, 1 | (0x8000 if st.get('qu') else 0)) for t in st['types']]
         ans = []
         for (i, ttl) in st.get('ka', []):
             t, _ = self.voc.ids[i]
@@ -196,6 +198,8 @@ class Recorder:
                 data = build_ptr_datagram(self.voc, st['items'])
                 self.items_by_data[data] = st['items']
                 self.host.inject(data, src=st.get('src', '10.0.0.9'))
+            elif op == 'rawrecv':
+                self.host.inject(bytes.fromhex(st['data']), src=st.get('src', '10.0.0.9'))
             elif op == 'reg':
                 await self.register(st)
             elif op == 'query':
@@ -368,6 +372,35 @@ def gen_c13_bigcache(rng: random.Random, sid: str, thorough: bool = False) -> di
                             'rand': {'first': r, 'tc': 437}})
 
 
+def gen_c13_unwritable(rng: random.Random, sid: str, thorough: bool = False) -> dict:
+    """A browser of two types: the first with so many fresh pointers that its question and known answers fill datagrams of their
+    own, the second with one cached pointer whose instance label (63 octets that are not UTF-8) cannot be written back as a known
+    answer.  Whatever the library does about the second question, the first is asked once per start-up instant, with its known
+    answers."""
+    n1 = rng.choice([60, 90, 150])
+    n2 = 2
+    r = rng.randint(20, 120)
+    bs = rng.choice([20000, 60000])
+    steps: List[dict] = [{'op': 'at', 't': 0}]
+    ids = list(range(1, n1 + 1))
+    t = 1000
+    k = 0
+    while k < len(ids):
+        chunk = ids[k:k + 20]
+        k += len(chunk)
+        steps += [{'op': 'at', 't': t}, {'op': 'recv', 'items': [{'id': i, 'ttl': 4500, 'sp': 0} for i in chunk]}]
+        t += 100
+    n = rng.choice([22, 40, 63])
+    # (octets that are invalid wherever they stand: each becomes a three-octet replacement character when the name is decoded)
+    lab = bytes([n]) + bytes(rng.choice([0xFF, 0xFE, 0xC0, 0xC1]) for _ in range(n))
+    inst = lab + wire.enc_name(T2)
+    raw = bytes([0, 0, 0x84, 0, 0, 0, 0, 1, 0, 0, 0, 0]) + wire.enc_name(T2) + bytes([0, 12, 0, 1]) + (4500).to_bytes(4, 'big') + len(inst).to_bytes(2, 'big') + inst
+    steps += [{'op': 'at', 't': t + 500}, {'op': 'rawrecv', 'data': raw.hex()}]
+    steps += [{'op': 'at', 't': bs}, {'op': 'bstart', 'types': [T1, T2], 'delay': 10000, 'forced': rng.choice(['none', 'none', 'QM'])}]
+    steps.append({'op': 'at', 't': bs + 16000})
+    return {'id': sid, 'n1': n1, 'n2': n2, 'seed': rng.randint(0, 10 ** 9), 'steps': steps, 'rand': {'first': r, 'tc': 437}}
+
+
 def gen_c13_suppress(rng: random.Random, sid: str, thorough: bool = False) -> dict:
     """A query heard from the link shortly before one of the browser's own start-up queries."""
     n1, n2 = 8, 2
@@ -417,10 +450,10 @@ def gen_c13_suppress(rng: random.Random, sid: str, thorough: bool = False) -> di
             qid = rng.randint(0, 65535)
             for j, part in enumerate(parts):
                 evs.append((times[j], {'op': 'query', 'types': [T1] if j == 0 else [], 'qu': False, 'qid': qid + j, 'ka': part,
-                                       'sp': rng.randint(0, 2), 'tc': j < npk - 1 or last_tc, 'src': src}))
+                                       'sp': rng.randint(0, 2), 'qsp': rng.randint(0, 2), 'tc': j < npk - 1 or last_tc, 'src': src}))
         else:
             evs.append((tq, {'op': 'query', 'types': [T1], 'qu': rng.random() < 0.15, 'qid': rng.randint(0, 65535),
-                             'ka': kal, 'sp': rng.randint(0, 2)}))
+                             'ka': kal, 'sp': rng.randint(0, 2), 'qsp': rng.randint(0, 2)}))
     evs.sort(key=lambda x: x[0])
     # the hold of a truncated query is scripted (437 ms): no other step of the scenario and no start-up query may fall on the
     # instant it runs out (which of two timers of one instant fires first is not specified)
